@@ -17,6 +17,13 @@ class SemiWrapper(KDWrapper):
 
     def getall_class(self):
         cls = self.dataset.getall_class()
+        # never edit the labels of the wrapped dataset in-place (getall_class can return the label storage itself)
+        if hasattr(cls, "clone"):
+            cls = cls.clone()
+        elif hasattr(cls, "copy"):
+            cls = cls.copy()
+        else:
+            cls = list(cls)
         for idx in self.semi_idxs:
             cls[idx] = -1
         return cls
